@@ -36,7 +36,7 @@ ASSUMPTIONS = [
 EXPECTED_PROBES = ["iter_resumed_after_deeper_build", "iter_resumed_after_clear_cache", "iter_resumed_after_recreate",
                    "below_compacted_depth", "jump_ahead_3", "mesh_basis", "two_classes_interleaved",
                    "basis_elem_of_new_length", "empty_level_reached", "long_membership_on_fresh_object",
-                   "is_subclass", "first_iter"]
+                   "is_subclass", "first_iter", "interrupted_call"]
 
 
 def plan(tier):
@@ -115,6 +115,10 @@ def gen_case(rng, tier):
                 others = [common.gen_classical_basis(rng)]
             op = avops.gen_query(rng, ref, cls["nmax"], classical, True, others)
             op["cls"] = c
+            if rng.random() < 0.08:
+                # the call is interrupted (Ctrl-C, a signal, MemoryError ...) after that many
+                # executed library lines; whatever it had done to the caches stays
+                op["interrupt"] = int(10 ** rng.uniform(0, 3.7))
             ops.append(op)
         elif r < 0.6:
             kind = rng.choice(["of_length", "of_length", "up_to_length", "first"])
@@ -164,6 +168,12 @@ def cases(rng, tier):
 
 
 # --- execution ----------------------------------------------------------------------
+
+
+def _PREFIX():  # noqa: N802
+    import os  # pylint: disable=import-outside-toplevel
+
+    return [os.path.join(core.repo_dir(), "permuta") + os.sep]
 
 
 def _traits(ref):
@@ -304,7 +314,18 @@ def execute(case):
             if last_cls is not None and last_cls != c:
                 out.probe("two_classes_interleaved")
             last_cls = c
-            resp = avops.run_query(av, op)
+            if op.get("interrupt"):
+                status, resp, _n = histsim.run_interruptible(lambda: avops.run_query(av, op), op["interrupt"], _PREFIX())
+                if status == "interrupted":
+                    out.fault("interrupted_call")
+                    out.probe("interrupted_call")
+                    out.nontrivial = True
+                    touched[c] = touched.get(c, 0) + 1
+                    hist.log.add("q", idx, kind, c, "interrupted")
+                    abst.append((kind, c, "interrupted"))
+                    continue
+            else:
+                resp = avops.run_query(av, op)
             touched[c] = touched.get(c, 0) + 1
             hist.log.add("q", idx, kind, c, core.canon(resp))
             abst.append((kind, c, rel))
